@@ -148,7 +148,7 @@ def run(ck):
                     m, g = p.value
                     lead = (2, "Bv", "Bp") if expand else (2, "B")
                     want = lead + (layout_dim(p.interp, m),)
-                    ck.check(g.shape == want, "C03.R2", inst + ":segments in parameter registration order", gsite, "layout %s, expected %s" % (show(g.shape), show(want)))
+                    ck.check(shape_is(g, want), "C03.R2", inst + ":segments in parameter registration order", gsite, "layout %s, expected %s" % (show(g.shape), show(want)))
                     # R6: Gamma-gradient segments are the derivatives of Gamma = (f(v) + sign f(vp))/2, f(x) = x.b + sum softplus(W x + c)
                     it = p.interp
                     R = role_terms(it, m)
@@ -204,7 +204,7 @@ def run(ck):
                     s, g = p.value
                     lead = (2, "Bv", "Bp") if expand else (2, "B")
                     want = lead + (layout_dim(p.interp, p.interp.get_attr(s, "rbm_am", None)),)
-                    ck.check(g.shape == want, "C03.R2", inst + ":segments in parameter registration order", psite, "layout %s, expected %s" % (show(g.shape), show(want)))
+                    ck.check(shape_is(g, want), "C03.R2", inst + ":segments in parameter registration order", psite, "layout %s, expected %s" % (show(g.shape), show(want)))
     # ---------------- R6 (Pi): the gradient of Pi goes through the sigmoid of Pi's own argument
     for phase in (False, True):
         for expand in (True, False):
@@ -260,6 +260,20 @@ def run(ck):
                     sig = sc[0][6] if isinstance(sc[0][6], T.Poly) else getattr(sc[0][4], "term", None)
                     sp_ = T.as_stack0(sig) if sig is not None else None
                     comps = T.as_stack0(g.term) if g.term is not None else None
+                    if comps is None and g.term is not None:
+                        # the pair with its last na entries (the auxiliary-bias segment, when that is the last parameter) overwritten
+                        # afterwards: grad[..., -num_aux:] = value
+                        ua = g.term.single_atom()
+                        if isinstance(ua, T.App) and ua.op == "upd" and T.as_stack0(ua.args[0]) is not None and order_ and order_[-1] == "d" \
+                                and tuple(ua.args[1][:1]) == ("ellipsis",) and len(ua.args[1]) == 2 and isinstance(ua.args[1][1], tuple) and ua.args[1][1][0] == "slice" \
+                                and ua.args[1][1][1] == -T.sym("na") and ua.args[1][1][2] is None and ua.args[1][1][3] is None and ua.args[2].is_const():
+                            newc = []
+                            for c_ in T.as_stack0(ua.args[0]):
+                                ca_ = c_.single_atom()
+                                if isinstance(ca_, T.App) and ca_.op == "cat" and len(ca_.args[0]) == len(order_):
+                                    newc.append(T.app("cat", tuple(ca_.args[0][:-1]) + (ua.args[2],), *ca_.args[1:]))
+                            if len(newc) == 2:
+                                comps = newc
                     if sp_ is None or len(sp_) != 2 or comps is None or len(comps) != 2:
                         ck.undecided("C03.R6", inst + ":segments", psite, "pi_grad or its sigmoid is not a (re, im) pair")
                         continue
